@@ -144,6 +144,9 @@ def gen(t, tier):
             sc['ops'].append(['seed', {'offset': t.pick([-3600, -5, -1, 0, 1, 5])}])
     sc['tz'] = t.pick(C.TIMEZONES)
     sc['src_age'] = t.pick([None, None, 5, 3600, 3 * 86400])
+    # the seed workers are forked processes (the default on Linux): each works with the tile manager as it was when the
+    # worker was started, not with what the parent sets on its own copy afterwards
+    sc['fork_workers'] = bool(t.chance(0.5))
     return sc
 
 
@@ -213,6 +216,14 @@ def _run(sc, tape):
 
     w.extra_patches.append((times, 'datetime', C.datetime_module(clock)))
     w.extra_patches.append((seeder, 'queue_class', SimQueue))
+    if sc.get('fork_workers'):
+        _RealSeedWorker = seeder.TileSeedWorker
+
+        class ForkedSeedWorker(_RealSeedWorker):
+            def start(self):
+                self.tile_mgr = copy.copy(self.tile_mgr)    # what fork() hands to the child: the state of this moment
+                return _RealSeedWorker.start(self)
+        w.extra_patches.append((seeder, 'TileSeedWorker', ForkedSeedWorker))
     w.extra_patches.append((seeder, 'Queue', SimQueueModule))
     shared = {'log': [], 'gen': 0, 'ocean': sc.get('ocean', False), 'src_age': sc.get('src_age')}
     ocean = sc.get('ocean', False)
